@@ -3,6 +3,7 @@
 False-alarm test: an independently written BEHAVIOUR-PRESERVING change (refactor / rewrite / optimisation that keeps the
 property) is applied to a scratch worktree of /repo HEAD, the repository's tests and the author's own property demo are
 run on it, and then our check: it has to stay silent (exit 0, no VIOLATION line).
+(EQUIV_NAME=<dir name> overrides the destination name.)
 Copies SEEDED/{patch_k.diff,demo_k.py,meta_k.json} to /verif/selftest/equivalent/<Cxx>-e<k>/ and writes meta.json.
 Never touches /repo's working tree."""
 import json, os, shutil, subprocess, sys, tempfile, time
@@ -10,7 +11,7 @@ import json, os, shutil, subprocess, sys, tempfile, time
 ROOT = os.path.dirname(os.path.dirname(os.path.abspath(__file__)))
 src, k, prop = sys.argv[1], sys.argv[2], sys.argv[3]
 rest = sys.argv[4:]
-dst = os.path.join(ROOT, "selftest", "equivalent", f"{prop}-e{k}")
+dst = os.path.join(ROOT, "selftest", "equivalent", os.environ.get("EQUIV_NAME") or f"{prop}-e{k}")
 os.makedirs(dst, exist_ok=True)
 for a, b in ((f"patch_{k}.diff", "patch.diff"), (f"demo_{k}.py", "demo.py"), (f"meta_{k}.json", "author_meta.json")):
     p = os.path.join(src, "SEEDED", a)
